@@ -66,7 +66,13 @@ class SetObjective(Contract):
         vc.fin_bounds.extend([n, b, mp, nsim])
         s = NS(n=n, b=b, mp=mp, nsim=nsim, thr=thr, q=q, reset_calls=[])
         batches = make_object('BatchHandlerStub', methods=dict(reset=lambda self_: s.reset_calls.append(1)))
-        s.self = make_object('RejectionStub', attrs=dict(batch_size=SInt(b), max_parallel_batches=SInt(mp), batches=batches))
+        # the object may have been used before: it carries the state and objective of an earlier run (a sampler can be asked to
+        # sample again); everything the class sets in __init__ / an earlier set_objective is present
+        old_state = dict(samples='BUFFERS-OF-AN-EARLIER-RUN', threshold=SReal(z3.Real('old_threshold')), n_sim=SInt(z3.Int('old_n_sim')), accept_rate=1,
+                         n_batches=SInt(z3.Int('old_n_batches')))
+        old_objective = dict(n_samples=SInt(z3.Int('old_n_samples')), threshold=None, n_batches=SInt(z3.Int('old_objective_n_batches')))
+        s.self = make_object('RejectionStub', attrs=dict(batch_size=SInt(b), max_parallel_batches=SInt(mp), batches=batches, state=old_state, objective=old_objective,
+                                                         discrepancy_name='d', adaptive=False, output_names=['d', 't']))
         kw = {}
         if self.form == 'threshold':
             kw['threshold'] = SReal(thr)
